@@ -5,6 +5,7 @@ import (
 	"fmt"
 	"os"
 	"runtime"
+	"strings"
 	"sync"
 	"sync/atomic"
 	"testing"
@@ -148,9 +149,15 @@ func (c *conc) flushStep() error {
 }
 
 func (c *conc) fail(rec *roundRec, format string, args ...any) {
-	js, _ := json.MarshalIndent(rec, "", " ")
-	c.t.Fatalf(format+"\nroles: goroutine 0 = metadata worker, 1..%d = index worker of that shard, others = metadata calls of further shards\nround record: %s",
-		append(args, c.nIdx, js)...)
+	var sb strings.Builder
+	fmt.Fprintf(&sb, "round %d, %d goroutines, %d index databases", rec.Round, c.k, c.nIdx)
+	if len(rec.FlushLog) > 0 {
+		fmt.Fprintf(&sb, "; flush steps since the previous round: %v", rec.FlushLog)
+	}
+	for g := range rec.Work {
+		fmt.Fprintf(&sb, "\n  goroutine %d (%s)\n    rows:    %v\n    answers: %s", g, rec.Roles[g], rec.Work[g], strings.Join(rec.Answers[g], "; "))
+	}
+	c.t.Fatalf(format+"\n%s", append(args, sb.String())...)
 }
 
 func (c *conc) round(no int) {
@@ -347,7 +354,7 @@ func runConcurrent(t *rapid.T, rounds int) {
 	}
 	canon, _ := json.Marshal(c.rounds)
 	ev.Class("TestConcurrentAssign", "rounds", rounds)
-	ev.Class("TestConcurrentAssign", "rounds-shared-new-name", sharedNew)
+	ev.Class("TestConcurrentAssign", "shared-rows-with-new-names", sharedNew)
 	ev.Class("TestConcurrentAssign", "flush-steps-between-rounds", flushSteps)
 	ev.Class("TestConcurrentAssign", fmt.Sprintf("goroutines-%d", k), 1)
 	ev.Class("TestConcurrentAssign", fmt.Sprintf("index-databases-%d", nIdx), 1)
